@@ -40,7 +40,7 @@ class Fifo:
         os.unlink(self.path)
 
 
-def run_jobserver_case(root, g, tokens, j, k, faults, sleepy, console=(), symloop=None):
+def run_jobserver_case(root, g, tokens, j, k, faults, sleepy, console=(), symloop=None, baddeps=None):
     """returns (finding or None, labels). console: picks of command statements that are put into the console pool.
     symloop: pick of a restat/generator statement whose command leaves its output as a link to itself (ninja's stat of
     the output fails: an error path of FinishCommand that is not a command failure)"""
@@ -67,6 +67,16 @@ def run_jobserver_case(root, g, tokens, j, k, faults, sleepy, console=(), symloo
             # the error path only differs from a command failure for a command that holds a token of its own: some
             # other command has to be running when it ends
             tokens, sleepy = max(tokens, 1), True
+        bad_deps = None
+        if baddeps is not None:
+            # a statement whose `deps` names a type ninja does not know: ninja only notices once the command has run, while
+            # other commands hold tokens of their own
+            cand = [e for e in cmds if not e['deps'] and not e.get('bare') and not e.get('is_dd_producer')]
+            if cand:
+                tokens, sleepy = max(tokens, 2), True
+                bad_deps = cand[baddeps % len(cand)]
+                bad_deps['deps_unknown'] = 'bogus'
+                labels.add('jobserver_unknown_deps_type')
         fifo = Fifo(os.path.join(root, "jobserver.fifo"), tokens)
         sim.omit_j = True
         sim.extra_env = {"MAKEFLAGS": " -j%d --jobserver-auth=fifo:%s" % (tokens + 1, fifo.path),
@@ -119,7 +129,9 @@ def run_jobserver_case(root, g, tokens, j, k, faults, sleepy, console=(), symloo
             seen.add(ev['edge'])
         if "stuck" in res['err']:
             return dict(kind="ninja reported 'stuck'", detail=detail), labels
-        if not fl and not stat_error and res['status'] != 0:
+        if bad_deps is not None and res['status'] == 0:
+            return dict(kind="a statement with an unknown deps type was built without an error", detail=detail), labels
+        if not fl and not stat_error and bad_deps is None and res['status'] != 0:
             return dict(kind="build under a jobserver failed without an injected fault (status %d)" % res['status'], detail=detail), labels
         return None, labels
     finally:
@@ -348,13 +360,13 @@ def jobserver_worker(widx, n_examples):
         @given(graphs.graphs(max_edges=6, features=dict(unordered_hidden=False)), st.integers(0, 3), st.sampled_from([1, 2, 3, 8]), st.sampled_from([1, 2, 0]),
                st.lists(st.tuples(st.integers(0, 20), st.sampled_from([1, 2, 130, 130, 255])), max_size=2), st.booleans(),
                st.one_of(st.just([]), st.just([]), st.lists(st.integers(0, 20), min_size=1, max_size=2)),
-               st.one_of(st.none(), st.none(), st.integers(0, 20)))
-        def test(g, tokens, j, k, faults, sleepy, console, symloop):
-            case = dict(g=g, tokens=tokens, j=j, k=k, faults=[list(f) for f in faults], sleepy=sleepy, console=console, symloop=symloop)
+               st.one_of(st.none(), st.none(), st.integers(0, 20)), st.one_of(st.none(), st.none(), st.none(), st.integers(0, 20)))
+        def test(g, tokens, j, k, faults, sleepy, console, symloop, baddeps):
+            case = dict(g=g, tokens=tokens, j=j, k=k, faults=[list(f) for f in faults], sleepy=sleepy, console=console, symloop=symloop, baddeps=baddeps)
             dg = common.digest(case)
             if budget.skip(dg):
                 return
-            f, labels = run_jobserver_case(root, g, tokens, j, k, faults, sleepy, console, symloop)
+            f, labels = run_jobserver_case(root, g, tokens, j, k, faults, sleepy, console, symloop, baddeps)
             res.case(case, 'jobserver_build' in labels and (tokens > 0 or bool(faults)), ['js:' + l for l in labels],
                      sample=dict(tokens=tokens, j=j, k=k, faults=case['faults']) if 'jobserver_failure' in labels else None)
             if f:
@@ -371,7 +383,7 @@ def replay_js(case):
     root = common.scratch_root()
     try:
         f, _ = run_jobserver_case(root, case['g'], case['tokens'], case['j'], case['k'], [tuple(x) for x in case['faults']], case['sleepy'],
-                                  case.get('console', ()), case.get('symloop'))
+                                  case.get('console', ()), case.get('symloop'), case.get('baddeps'))
     finally:
         shutil.rmtree(root, ignore_errors=True)
     return f['kind'] if f else None
